@@ -99,6 +99,16 @@ fn io_take() -> Vec<(String, &'static str)> {
     Vec::new()
 }
 
+/// TLC's JSON module has no value for null: events never contain one
+pub fn denull(v: &mut Value) {
+    match v {
+        Value::Null => *v = json!("-"),
+        Value::Array(a) => a.iter_mut().for_each(denull),
+        Value::Object(o) => o.values_mut().for_each(denull),
+        _ => {}
+    }
+}
+
 fn panic_msg(e: Box<dyn std::any::Any + Send>) -> String {
     if let Some(s) = e.downcast_ref::<&str>() {
         s.to_string()
@@ -262,7 +272,9 @@ impl Ctx {
                 ev.insert("msg".into(), json!(panic_msg(p)));
             }
         }
-        Ok(Value::Object(ev))
+        let mut v = Value::Object(ev);
+        denull(&mut v);
+        Ok(v)
     }
 
     fn set_res<T>(&self, ev: &mut Map<String, Value>, r: std::io::Result<T>, f: impl FnOnce(T) -> Value) {
